@@ -74,6 +74,19 @@ Theorem C11_payload_byte_detected : forall shards k items j a b b' c,
 Proof. exact payload_byte_detected. Qed.
 Print Assumptions C11_payload_byte_detected.
 
+(** a length prefix turned into zero (one altered byte for items shorter than 256 bytes) is taken for
+    the end marker; with the repaired reader (D18: nothing may follow the end marker) the read of that
+    shard ends in an error for EVERY record position and every checksum function — it used to succeed
+    with a prefix of the items, which the XOR-of-CRCs checksum does not notice when the dropped items'
+    CRCs cancel *)
+From NV Require Import Codec.FrameProofs.
+Theorem C11_zeroed_length_detected : forall crc items k,
+  Forall good_v1 items -> (k < length items)%nat ->
+  read_all crc 1 (zero4_at (length (concat (map encode_item (firstn k items)))) (file_of crc items))
+  = (firstn k items, items_ck crc (firstn k items), RErr ECorrupt).
+Proof. exact zeroed_length_detected_nth. Qed.
+Print Assumptions C11_zeroed_length_detected.
+
 (** "never stuck": the shard loader pool (Conc/LoaderPool.v: a feeder, an unbuffered channel, c loader
     goroutines; a loader that hits a read error goes on receiving) *)
 From Coq Require Import List Arith Lia Bool Sorting.Permutation.
